@@ -31,7 +31,7 @@ def time_limit(tier):
 
 
 def budget(tier):
-    return dict(specs=80, calls=3) if tier == 'quick' else dict(specs=3000, calls=5)
+    return dict(specs=400, calls=3) if tier == 'quick' else dict(specs=3000, calls=5)
 
 
 def profile(ci):
